@@ -3,6 +3,7 @@ directory listing order is permuted by wrapping os.walk / Path.iterdir."""
 import importlib.machinery
 import itertools
 import json
+import re
 import logging
 import os
 import pkgutil
@@ -240,7 +241,10 @@ def root_cause(forms, inner, problems):
     """C14-F1: a namespace package spread over several search paths whose portions hold the same sub-module / sub-package name."""
     if all(f.startswith("bare_dir") or f == "none" for f in forms) and sum(f.startswith("bare_dir") for f in forms) == 2:
         tops = [{r.split("/")[0].split(".")[0] for r in rels} for rels in inner]
-        if tops[0] & tops[1] and all("top." in p and ("!=" in p or "imports" in p or "not importable" in p or "listing order" in p) for p in problems):
+        clash = tops[0] & tops[1]
+        # every reported difference lies at or below a name that both portions hold (or is the order dependence that follows from it)
+        under_clash = lambda p: "listing order" in p or any(re.search(r"\btop\." + re.escape(n) + r"\b", p) for n in clash)  # noqa: E731
+        if clash and all(under_clash(p) and ("!=" in p or "imports" in p or "not importable" in p or "listing order" in p or "but not loaded" in p) for p in problems):
             return ["C14-F1"]
     return []
 
